@@ -336,7 +336,7 @@ def add_producer_side(b, rng, fe, focus='c04', tokens=False, lp_prob=0.1, transp
                 name = pfx[:-1] + ['zz']
             if not name:
                 name = [rng.choice(alphabet)]
-            life = rng.choice([5, 10, 20, 50, 100, None]) if rng.random() < 0.9 else 4000
+            life = rng.choice([0, 1, 5, 10, 20, 50, 100, None]) if rng.random() < 0.9 else 4000
             nonce = b.next_nonce
             b.next_nonce += 1
             spec = {'k': 'interest', 'name': name, 'nonce': nonce, 'lifetime': life,
